@@ -6,7 +6,10 @@ MANIFEST = {
     'text': 'Model Mistral.Engine (start / start_task / on_action_complete / refresh jobs / completion check / '
             'dispatcher with backlog / pause / resume / stop; join logic from Mistral.Join). Theorems: verdict_rule '
             '(final state = CANCELLED if any task cancelled, SUCCESS iff every ERROR task is handled, else ERROR), '
-            'next_tasks_rule, error_handled_iff (handled iff an on-error route fired), crash_only_in_refresh and '
+            'next_tasks_rule, error_handled_iff (handled iff an on-error route fired), direct_join_gets_refresh (when a task '
+            'completes in a RUNNING workflow every join that directly succeeds it and has a row gets a pending '
+            'schedule-refresh operation in the same transaction: the core of the join wake-up protocol), '
+            'crash_only_in_refresh and '
             'no_crash_on_acyclic_partial (no event can raise an undeclared error on an acyclic definition; the cyclic '
             'case is the proved counter-witness C04.possibleRoute_full_fails). The tie is the `core` stream: for '
             'generated data-free programs x result oracles x schedules (+pause/resume/stop) the committed rows and the '
